@@ -1063,6 +1063,57 @@ def _rechunk_cub(xp, a, p):
 reg(Op("rechunk", 1, lambda a: a.ndim >= 1 and a.size > 0, _rechunk_params, _rechunk_cub, lambda v, p: v[0], "exact", ("chunk", "rechunk"), 3))
 
 
+def _store_lazy_params(draw, st, vals):
+    v = vals[0]
+    mode = draw(st.sampled_from(["same", "divide", "other", "path", "path"]))
+    div = [draw(st.sampled_from([1, 2, 3])) for _ in v.shape]
+    other = [min(max(s, 1), draw(st.sampled_from([1, 2, 3, 5]))) for s in v.shape]
+    return {"mode": mode, "div": div, "other": other, "api": draw(st.sampled_from(["store", "to_zarr"]))}
+
+
+STORE_TARGETS = []  # (target, is_path) of every store_lazy node built since the last reset (checks clear it)
+
+
+def _store_lazy_cub(xp, a, p):
+    """the array returned by store/to_zarr(..., compute=False), used as an ordinary node of the program (opt-in: store_mid)"""
+    import os
+    import uuid
+
+    import cubed
+    import zarr
+    from zarr.storage import LocalStore, MemoryStore
+
+    x = a[0]
+    wd = getattr(x.spec, "work_dir", None)
+
+    def new_store():
+        if wd is not None and "://" not in str(wd):
+            d = os.path.join(str(wd), "vp-targets", uuid.uuid4().hex + ".zarr")
+            os.makedirs(os.path.dirname(d), exist_ok=True)
+            return LocalStore(d)
+        return MemoryStore()
+
+    if p["mode"] == "path":
+        target = new_store()
+        STORE_TARGETS.append((target, True))
+    else:
+        if p["mode"] == "same":
+            ch = tuple(x.chunksize)
+        elif p["mode"] == "divide":
+            ch = tuple(max(1, c // d) if c % d == 0 else c for c, d in zip(x.chunksize, p["div"]))
+        else:
+            ch = tuple(min(max(n, 1), c) for n, c in zip(x.shape, p["other"]))
+        target = zarr.create_array(new_store(), shape=x.shape, chunks=ch, dtype=x.dtype)
+        STORE_TARGETS.append((target, False))
+    if p["api"] == "to_zarr" or p["mode"] == "path":
+        return cubed.to_zarr(x, target, compute=False)
+    return cubed.store([x], [target], compute=False)[0]
+
+
+# weight 0: only generated where a check opts in (opts["store_mid"]); the value is the source's
+reg(Op("store_lazy", 1, lambda a: a.ndim >= 1 and a.size > 0 and a.dtype.names is None, _store_lazy_params, _store_lazy_cub, lambda v, p: v[0], "exact", ("store-mid",), 0))
+
+
 def _mb_fn(x, block_id=None, k=1):
     return x * k + sum(int(b) * (10 ** i) for i, b in enumerate(block_id))
 
